@@ -182,3 +182,88 @@ package workflow
 //@   ensures err == nil ==> forall k string :: (k in defaults) ==> defaults[k] == old(gera.flatVal(iface(r.Defaults), k))
 //@   ensures err == nil ==> forall k string :: (k in vars) ==> vars[k] == old(gera.flatVal(iface(r.Vars), k))
 //@   ensures err == nil ==> forall k string :: (k in userVars) ==> userVars[k] == old(gera.flatVal(iface(r.UserVars), k))
+
+// C14: the three hierarchies are linked level by level: attaching a role to its parent makes the parent's map of each
+// kind the parent of the role's own map of the same kind, so "nearest definition wins" (gera) ranges over the role's
+// ancestors in order. What a node exposes as its defaults/vars/user vars:
+//@ ghost func otherDefaults(u Updatable) gera.Map
+//@ ghost func otherVars(u Updatable) gera.Map
+//@ ghost func otherUserVars(u Updatable) gera.Map
+//@ ghost pure func nodeDefaults(u Updatable) gera.Map =
+//@     if u is *aggregatorRole then (if u.(*aggregatorRole) == nil then nil else iface(u.(*aggregatorRole).Defaults))
+//@     else if u is *includeRole then (if u.(*includeRole) == nil then nil else iface(u.(*includeRole).Defaults))
+//@     else if u is *taskRole then (if u.(*taskRole) == nil then nil else iface(u.(*taskRole).Defaults))
+//@     else if u is *callRole then (if u.(*callRole) == nil then nil else iface(u.(*callRole).Defaults))
+//@     else otherDefaults(u)
+//@ ghost pure func nodeVars(u Updatable) gera.Map =
+//@     if u is *aggregatorRole then (if u.(*aggregatorRole) == nil then nil else iface(u.(*aggregatorRole).Vars))
+//@     else if u is *includeRole then (if u.(*includeRole) == nil then nil else iface(u.(*includeRole).Vars))
+//@     else if u is *taskRole then (if u.(*taskRole) == nil then nil else iface(u.(*taskRole).Vars))
+//@     else if u is *callRole then (if u.(*callRole) == nil then nil else iface(u.(*callRole).Vars))
+//@     else otherVars(u)
+//@ ghost pure func nodeUserVars(u Updatable) gera.Map =
+//@     if u is *aggregatorRole then (if u.(*aggregatorRole) == nil then nil else iface(u.(*aggregatorRole).UserVars))
+//@     else if u is *includeRole then (if u.(*includeRole) == nil then nil else iface(u.(*includeRole).UserVars))
+//@     else if u is *taskRole then (if u.(*taskRole) == nil then nil else iface(u.(*taskRole).UserVars))
+//@     else if u is *callRole then (if u.(*callRole) == nil then nil else iface(u.(*callRole).UserVars))
+//@     else otherUserVars(u)
+
+//@ func (u Updatable) GetDefaults() (m gera.Map[string, string])
+//@   noverify
+//@   pure
+//@   ensures m == nodeDefaults(u)
+//@ func (u Updatable) GetVars() (m gera.Map[string, string])
+//@   noverify
+//@   pure
+//@   ensures m == nodeVars(u)
+//@ func (u Updatable) GetUserVars() (m gera.Map[string, string])
+//@   noverify
+//@   pure
+//@   ensures m == nodeUserVars(u)
+
+// the implementation every role kind inherits
+//@ func (r *roleBase) GetDefaults() (m gera.Map[string, string])
+//@   property C14
+//@   pure
+//@   ensures r == nil ==> m == nil
+//@   ensures r != nil ==> m == iface(r.Defaults)
+//@ func (r *roleBase) GetVars() (m gera.Map[string, string])
+//@   property C14
+//@   pure
+//@   ensures r == nil ==> m == nil
+//@   ensures r != nil ==> m == iface(r.Vars)
+//@ func (r *roleBase) GetUserVars() (m gera.Map[string, string])
+//@   property C14
+//@   pure
+//@   ensures r == nil ==> m == nil
+//@   ensures r != nil ==> m == iface(r.UserVars)
+
+//@ func (r *aggregatorRole) setParent(role Updatable)
+//@   property C14
+//@   requires r != nil && role != nil
+//@   requires r.Defaults != r.Vars && r.Defaults != r.UserVars && r.Vars != r.UserVars
+//@   modifies r.parent, r.Defaults.parent, r.Vars.parent, r.UserVars.parent
+//@   ensures r.parent == role
+//@   ensures r.Defaults != nil ==> r.Defaults.parent == old(nodeDefaults(role))
+//@   ensures r.Vars != nil ==> r.Vars.parent == old(nodeVars(role))
+//@   ensures r.UserVars != nil ==> r.UserVars.parent == old(nodeUserVars(role))
+
+//@ func (t *taskRole) setParent(role Updatable)
+//@   property C14
+//@   requires t != nil && role != nil
+//@   requires t.Defaults != t.Vars && t.Defaults != t.UserVars && t.Vars != t.UserVars
+//@   modifies t.parent, t.Defaults.parent, t.Vars.parent, t.UserVars.parent
+//@   ensures t.parent == role
+//@   ensures t.Defaults != nil ==> t.Defaults.parent == old(nodeDefaults(role))
+//@   ensures t.Vars != nil ==> t.Vars.parent == old(nodeVars(role))
+//@   ensures t.UserVars != nil ==> t.UserVars.parent == old(nodeUserVars(role))
+
+//@ func (t *callRole) setParent(role Updatable)
+//@   property C14
+//@   requires t != nil && role != nil
+//@   requires t.Defaults != t.Vars && t.Defaults != t.UserVars && t.Vars != t.UserVars
+//@   modifies t.parent, t.Defaults.parent, t.Vars.parent, t.UserVars.parent
+//@   ensures t.parent == role
+//@   ensures t.Defaults != nil ==> t.Defaults.parent == old(nodeDefaults(role))
+//@   ensures t.Vars != nil ==> t.Vars.parent == old(nodeVars(role))
+//@   ensures t.UserVars != nil ==> t.UserVars.parent == old(nodeUserVars(role))
